@@ -30,6 +30,101 @@ CLAIMED = {
         "order follows set order): the returned tree (walked through head/sons, own semantics), regex.accepts and regex.to_epsilon_nfa() are each compared exactly with the automaton's language.",
    note=NOTE, technique="explicit-state enumeration of all small automata x elimination orders against a reference regex/NFA semantics (exact)",
    design="DESIGN.md §3 C06"),
+ "C05": dict(
+   text="Every string of <= 4 tokens (5 thorough) over the documented token alphabet incl. blanks, both spellings of each operator, epsilon/$ and escaped operators -- well-formed, ill-formed and "
+        "unspecified texts classified by an independent tokenizer + recursive-descent parser -- and every regex AST of <= 5 nodes (6 thorough) in 12 renderings (minimal / redundant parentheses x "
+        "concatenation and union spellings): construction outcome / exception type, the tree (head/sons), accepts, to_epsilon_nfa (exact), to_cfg (words <= 4 + contains), str() re-parse; "
+        "union/concatenate/kleene_star on all ordered pairs of ASTs <= 3 nodes incl. the operands' answers afterwards.",
+   note=NOTE, technique="exhaustive enumeration of token strings and regex ASTs against a reference parser + denotational semantics (exact NFA equivalence)",
+   design="DESIGN.md §3 C05"),
+ "C07": dict(
+   text="Every pattern of the generated documented subset (29 atoms x 13 quantifiers; binary combinations; quantified groups; nested quantified groups; pruned depth 3 in thorough; patterns "
+        "Python rejects) x 477 strings (all of length <= 2 over a 12-letter boundary alphabet, all of length <= 4 over {a,b,0,-}): PythonRegex(p).accepts(s) == (re.fullmatch(p, s) is not None).",
+   note="Trusted: CPython's re (the property's own oracle). Patterns outside the generated family are not claimed.",
+   technique="exhaustive enumeration of the pattern family x string family against CPython re as reference model",
+   design="DESIGN.md §3 C07"),
+ "C08": dict(
+   text="Every grammar of CFG(2 variables, {a,b}, bodies <= 2, <= 3 productions) and CFG(2,2,3,<=2) modulo renaming (thorough: 4 productions, 3 variables), plus adversarial names (a#CNF#, C#CNF#k, "
+        "a variable and a terminal with the same spelling): contains / in / generate_epsilon on every word <= 4 over {a,b} + an unknown symbol, on a shared object and on a second grammar built from "
+        "the same Production objects, compared with a least-fixpoint derivability oracle, under natural and salted set orders.",
+   note="Trusted: CFG oracle (two formulations cross-checked in selftest); languages decided up to word length 4.",
+   technique="exhaustive enumeration of small grammars x words x order policies against a least-fixpoint derivability oracle",
+   design="DESIGN.md §3 C08"),
+ "C09": dict(
+   text="The same grammar layers plus all pairs of long productions sharing a suffix and grammars that already use C#CNF#1/C#CNF#2: each of remove_useless_symbols, remove_epsilon, "
+        "eliminate_unit_productions, to_normal_form on a fresh object; result language (words <= 4, extracted productions through the oracle and result.contains) and promised shape by own inspection.",
+   note="Trusted: CFG oracle; grammar languages compared on words <= 4 (general equality undecidable).",
+   technique="exhaustive enumeration of small grammars x order policies against a bounded-language oracle + shape inspection",
+   design="DESIGN.md §3 C09"),
+ "C10": dict(
+   text="closure / positive closure / reverse on every grammar of the iso-reduced pool CFG(2,2,2,<=3) (fresh and previously queried operand); union / concatenate on ordered pairs from CFG(2,2,2,<=2) "
+        "incl. the same object twice; substitute with one terminal, two terminals mapped to the same grammar object, identity, absent terminal; adversarial names (#SUBS#, #STARTUNION#, #0UNION#); "
+        "results compared with set algebra on L<=4 / an own grammar composition.",
+   note="Trusted: CFG oracle; words <= 4.",
+   technique="exhaustive enumeration of operand grammars / pairs against reference set algebra on bounded languages",
+   design="DESIGN.md §3 C10"),
+ "C11": dict(
+   text="Left: every grammar of the pool CFG(2,2,2,<=2) / every PDA of PDA(2,2,2,<=t) with final states; right: every automaton of FA(2,{a,b},<=1) (thorough <=2) as every class it is valid for, over "
+        "{a,b} and {b,c}, and 20 regexes; non-regular operands must raise NotImplementedError; result language = {w in L(left) : right accepts w} on all words <= 4 (CFG) / <= 3 (PDA, exact summary oracle).",
+   note="Trusted: CFG / PDA / NFA oracles (cross-checked in selftest).",
+   technique="exhaustive enumeration of operand pairs against reference CFG / PDA / NFA semantics",
+   design="DESIGN.md §3 C11"),
+ "C12": dict(
+   text="Same grammar layers as C08: is_empty, is_finite (exact growing-cycle oracle), generating / nullable / reachable symbols (textbook worklists), get_words(n) for n=0..4 and unbounded on every "
+        "finite language as a multiset of lists of terminals; each query on a fresh object, under natural and salted set orders.",
+   note="Trusted: CFG oracle incl. finiteness (two formulations cross-checked in selftest).",
+   technique="exhaustive enumeration of small grammars x bounds x order policies against reference fixpoints",
+   design="DESIGN.md §3 C12"),
+ "C13": dict(
+   text="Every PDA of PDA(2 states, stack {Z,X}, pushes <= 2, <= 2 transitions, any finals) modulo letter swap (thorough: 3 transitions, pushes 3, 3 states) with plain and reserved names, and every "
+        "grammar of CFG(2,2,2,<=3) incl. a variable named #TERM#a: to_pda, to_cfg, to_final_state, to_empty_stack compared on all words <= 3 with an exact summary-fixpoint PDA oracle applied to the extracted results.",
+   note="Trusted: PDA summary oracle (cross-checked against configuration BFS in selftest), CFG oracle.",
+   technique="exhaustive enumeration of small PDAs / grammars x order policies against an exact PDA acceptance oracle",
+   design="DESIGN.md §3 C13"),
+ "C14": dict(
+   text="Every grammar of CFG(2,2,2,<=4), CFG(2,2,3,<=2), CFG(3,2,2,<=3) modulo renaming without useless symbols: FIRST/FOLLOW on variables and the LL(1) verdict against textbook fixpoints; for LL(1) "
+        "grammars the parser on every word <= 4 (+ unknown symbol): tree iff member, NotParsableException otherwise, trees validated.",
+   note="Trusted: FIRST/FOLLOW/PREDICT reference (second brute-force formulation in selftest), CFG oracle.",
+   technique="exhaustive enumeration of small grammars x words against textbook LL(1) reference sets",
+   design="DESIGN.md §3 C14"),
+ "C15": dict(
+   text="Every grammar of CFG(2,2,2,<=3) and CFG(2,2,3,<=2) (ambiguous ones included) x every word <= 4 through get_cnf_parse_tree, LLOneParser, RecursiveDecentParser (both directions) and FCFG.get_parse_tree: "
+        "each returned tree is validated node by node against the grammar (root, productions, epsilon leaves, frontier, acyclic), leftmost and rightmost derivations step by step, refusals by exception type.",
+   note="Trusted: tree/derivation validator, CFG oracle. Recursive descent only where documented to terminate.",
+   technique="exhaustive enumeration of small grammars x words; every returned tree/derivation validated against the grammar",
+   design="DESIGN.md §3 C15"),
+ "C16": dict(
+   text="Every transducer of FST(2 states, input {a,b,eps}, outputs {-,x,y,xy}, <= 2 transitions (3 thorough), any start/final sets) whose epsilon cycles write nothing: translate on all inputs <= 3; "
+        "kleene_star; union / concatenate on all ordered pairs of the <= 1 transition pool with shared str and int state names; to_fst on FA(2,{a,b},<=3); relations of extracted results compared exactly per input.",
+   note="Trusted: FST relation reference (BFS; path enumeration cross-check in selftest).",
+   technique="exhaustive enumeration of small transducers / pairs x inputs against a reference transduction relation",
+   design="DESIGN.md §3 C16"),
+ "C17": dict(
+   text="Every reduced-form indexed grammar over S,A,B / f,g with <= 3 rules (4 thorough) modulo renaming x every permutation of the rule list x optim 0..8 (random.shuffle owned), queried twice and after "
+        "remove_useless_rules(), against an exact stack-profile fixpoint; intersection with 12 regular languages (Regex/DFA/eps-NFA) against an own triple construction. Slow (exponential) intersections are counted as inconclusive.",
+   note="Trusted: stack-profile fixpoint (cross-checked by bounded derivations in selftest).",
+   technique="exhaustive enumeration of small indexed grammars x rule orders x heuristics against an exact emptiness fixpoint",
+   design="DESIGN.md §3 C17"),
+ "C18": dict(
+   text="All 317k ordered pairs of consistently typed feature structures of depth <= 2 with <= 1 shared node: unify raises iff the reference MGU clashes, the receiver's observable (paths, atoms, sharing) equals "
+        "the reference MGU, both argument orders agree; every FCFG from a useful skeleton of CFG(2,2,2,<=3) with <= 2 annotated occurrences (F=p/q/?x) x words <= 3 against the instantiate-to-CFG oracle; feature-free FCFG vs CFG.contains.",
+   note="Trusted: union-find MGU reference, CFG oracle.",
+   technique="exhaustive enumeration of feature-structure pairs and annotated grammars against reference unification / instantiation",
+   design="DESIGN.md §3 C18"),
+ "C19": dict(
+   text="Explicit-state BFS over call histories on real objects: 19 seed objects (automata, regexes, grammars, PDAs, transducers, indexed grammars), alphabets of 6-27 operations (queries, conversions, conversions of "
+        "conversions, the same object as both operands, mutations of returned objects), depth <= 3 (4 thorough); states deduplicated by a deep structural fingerprint (private caches, aliasing); in every state the "
+        "observation battery on the seed equals the battery on a fresh twin and the seed's public structure is unchanged.",
+   note="Trusted: fingerprint soundness (equal fingerprints => equal futures under a fixed order policy); semantic comparison of returned objects.",
+   technique="explicit-state breadth-first search over operation sequences on the real objects with state hashing and a fresh-twin differential oracle",
+   design="DESIGN.md §3 C19"),
+ "C20": dict(
+   text="networkx round trip of every eps-NFA of FA(2,{a,b},<=4) and FA(3,2,<=2) with isolated states under 5 naming schemes (incl. helper-node names, odd strings) and odd symbol values, of PDA(2,2,2,<=2) and FST(2,<=2); "
+        "text round trip of CFG(2,2,2,<=3) under 5 spellings (VAR:/TER: markers, same spelling for a variable and a terminal); from_ebnf / from_regex on every text of 1-2 lines (3 strided) with bodies from all regex ASTs <= 3 nodes: boxes, box languages (exact), start box.",
+   note="Trusted: extraction through public accessors, NFA/regex/CFG oracles.",
+   technique="exhaustive enumeration of small machines / grammars / EBNF texts x naming schemes; structural and exact language comparison after the round trip",
+   design="DESIGN.md §3 C20"),
+
  "C04": dict(
    text="Bounded exhaustive exploration of the real code: every epsilon-NFA of the layers FA(2,{a,b},<=12 edges) and FA(3,{a,b},<=3 edges) "
         "(thorough: + FA(3,2,4), FA(3,1,<=6), FA(4,1,<=4)), modulo renaming, built as every class it is valid for, under natural set order and salted "
